@@ -548,12 +548,20 @@ func GenPut(t *rapid.T, kind StoreKind, pairs []Pair, exotic bool) *Stmt {
 			k = prevKey.Clone()
 		case rapid.IntRange(0, 4).Draw(t, "intKey") == 0:
 			k = kc.GenInt(t, 1)
+			if rapid.IntRange(0, 2).Draw(t, "intKeySpelled") == 0 {
+				// a plain integer literal with leading zeros: the key is the
+				// number, written in decimal (007 is the key 7)
+				k = SpelledInt(int64(rapid.IntRange(0, 12).Draw(t, "intKeyLit")), rapid.IntRange(1, 2).Draw(t, "intKeyZeros"))
+			}
 		default:
 			k = kc.GenText(t, rapid.IntRange(0, 2).Draw(t, "putKeyDepth"))
 		}
 		var v *Node
 		if rapid.IntRange(0, 4).Draw(t, "intVal") == 0 {
 			v = vc.GenInt(t, 1)
+			if rapid.IntRange(0, 2).Draw(t, "intValSpelled") == 0 {
+				v = SpelledInt(int64(rapid.IntRange(0, 12).Draw(t, "intValLit")), rapid.IntRange(1, 2).Draw(t, "intValZeros"))
+			}
 		} else {
 			v = vc.GenText(t, rapid.IntRange(0, 2).Draw(t, "putValDepth"))
 		}
